@@ -107,7 +107,7 @@ TEXTS["C19"] = {
     "text": "Proved on the model: the age rule evicts only transactions that are held, old, not batched, not ready and parked (C19_evict_only_old_nonready_nonbatched, C19_evict_count), GetTransaction returns the "
             "item stored under the hash's pointer (C19_getTx_from_items), HasPendingRequest is the ready counter (C19_pending_flag_is_counter). No silent loss, one operation at a time, for every pool state: batch building forgets nothing "
             "(C19_generate_forgets_nothing), ProcessTransactions forgets a held hash only by supersession of its (account, nonce) (C19_process_forgets_only_superseded, C19_admission_sound), a commit only the hashes it "
-            "names (C19_commit_forgets_only_committed), the age rule only parked unbatched holders (C19_evict_forgets_only_parked); and over every history of admissions, batch generations, commits and evictions from "
+            "names (C19_commit_forgets_only_committed), the age rule only parked unbatched holders (C19_evict_forgets_only_parked); the transaction cache in front of the pool posts every arrival once, in arrival order, in sets of at most the set size (C19_txcache_loses_nothing, tied to the real TxCache goroutine); and over every history of admissions, batch generations, commits and evictions from "
             "any pool state a held hash stays held to the end unless one of these three reasons applied at some point (C19_history_no_silent_loss). Pending-nonce exactness and bounded liveness "
             "(60 rounds of generate+commit) are decided by correspondence and a model-free monitor over GetTransaction of every hash ever given. Two defects found here were repaired by fix: commits "
             "(eviction corrupted other accounts' nonce indices; GetTransaction returned a superseding tx); known finding: pending nonce stale after foreign commits.",
